@@ -58,9 +58,24 @@ def run(argv, cwd=None, env=None, timeout=60, stdin=None, merge=False, limit=4 <
         except OSError: pass
     return Proc(argv, p.returncode, (out or b'')[:limit], (err or b'')[:limit], to, time.time() - t)
 
-def pmap(fn, items, workers=None):
+_PM = {}
+def _pm_call(i):
+    return _PM['fn'](_PM['items'][i])
+
+def pmap(fn, items, workers=None, procs=False):
+    """parallel map.  Threads by default (workers mostly wait for subprocesses); procs=True forks worker
+    processes for CPU-bound Python work (fn and items are inherited by fork, results must pickle)."""
     items = list(items)
     if not items: return []
+    if procs:
+        import multiprocessing as mp
+        _PM['fn'] = fn; _PM['items'] = items
+        ctx = mp.get_context('fork')
+        with ctx.Pool(min(workers or NCPU, len(items))) as pool:
+            try:
+                return pool.map(_pm_call, range(len(items)), chunksize=1)
+            finally:
+                _PM.clear()
     with ThreadPoolExecutor(max_workers=workers or NCPU) as ex:
         return list(ex.map(fn, items))
 
